@@ -27,6 +27,7 @@ def run(ctx):
                 "case is replayed in two modifier orders through GetCosmeticOption, Engine.MatchRequest and Engine.GetCosmeticResult. "
                 "distinct_nontrivial = cases whose expected option is not 'everything enabled'")
     ctx.build()
+    ctx.tlaps("OrderLemmas")      # Antitone / NeverReEnables proved for every modifier set and every Disabled (TLAPS)
     r = ctx.tlc("MC_Cosmetic", CFG, timeout=300)
     recs = [x for x in r.records if "option" in x]
     s, mism = replay_cases(ctx, recs)
